@@ -2,7 +2,7 @@ import os, sys
 sys.path.insert(0, os.path.dirname(__file__))
 from ledger_common import ledger_config
 CONFIG = ledger_config("C07", ["Sky/Props/C07.lean"], dict(
-    text="Lean 4 theorems, all histories (non-arbitrating): the stored unspent checksum equals the xor of the snapshot hashes of the "
+    text="Lean 4 theorems, all histories, both node configurations: the stored unspent checksum equals the xor of the snapshot hashes of the "
          "current unspent set, and the address-index height and parsed-history sequence equal the head sequence (derived_after_run); "
          "pool operations never change any derived structure (pool_ops_keep_derived). The per-address index, address count, history "
          "buckets (including which block/transaction spent each output) and the chain queries are carried by the correspondence: all of "
